@@ -1,17 +1,24 @@
 package coord
 
 import (
+	"context"
 	"fmt"
 	"os"
 	"path/filepath"
 	"sync"
 	"sync/atomic"
+	"time"
+
+	pb "google.golang.org/protobuf/proto"
+
+	"github.com/oxia-db/oxia/proto"
 
 	"github.com/oxia-db/oxia/coordinator/metadata"
 	"github.com/oxia-db/oxia/coordinator/model"
 
 	"verif/lib/core"
 	"verif/lib/ctl"
+	rc "verif/lib/replcluster"
 )
 
 func init() {
@@ -119,5 +126,135 @@ func runMetaFile(tier string, seed uint64, idx int) core.Result {
 	if idx < 2 {
 		r.Sample(map[string]any{"shards": shards, "stores": stores, "observations": r.Get("observations")})
 	}
+	return r.Done()
+}
+
+// ---- a late DeleteShard of a superseded election must be refused and change nothing ----
+
+func init() {
+	core.Register(&core.Part{
+		Name: "C05.latedelete", Prop: "C05",
+		Cases: func(tier string) int { return tierN(tier, 6, 60) },
+		Run:   runLateDelete,
+		Rule: "3 real nodes, elections driven directly: terms 1..k with writes, then DeleteShard of an older term (a late request of a superseded election) is delivered to the current leader and to a current follower, once and twice, followed by DeleteShard of the current term to a node that had refused; " +
+			"oracle: the stale request is refused, the leader still commits a write afterwards, the follower still receives it (head advances), their terms are unchanged, and nothing panics; non-trivial = both roles probed; distinct = (terms, writes)",
+		MinNontrivial:    func(tier string) int { return tierN(tier, 3, 30) },
+		RequiredCounters: []string{"stale_deletes_refused", "writes_after_stale_delete"},
+		CaseTimeoutS:     60,
+	})
+}
+
+func runLateDelete(tier string, seed uint64, idx int) core.Result {
+	r := core.NewR("C05.latedelete", idx)
+	rng := core.CaseSeed(seed, "C05.latedelete", idx)
+	dir, err := os.MkdirTemp("", "latedel-")
+	if err != nil {
+		r.Inconclusive(err.Error())
+		return r.Done()
+	}
+	defer os.RemoveAll(dir)
+	c, err := rc.New(dir, 3, 1<<16, true)
+	if err != nil {
+		r.Inconclusive(err.Error())
+		return r.Done()
+	}
+	defer c.Close()
+	terms := 2 + rng.IntN(3)
+	leader := ""
+	write := func(n int) bool {
+		lc, err := c.Node(leader).Leader()
+		if err != nil {
+			return false
+		}
+		for i := 0; i < n; i++ {
+			ctx, cancel := context.WithTimeout(context.Background(), 5*time.Second)
+			_, err := lc.WriteBlock(ctx, &proto.WriteRequest{Shard: pb.Int64(0), Puts: []*proto.PutRequest{{Key: fmt.Sprintf("k%d", i), Value: []byte("v")}}})
+			cancel()
+			if err != nil {
+				return false
+			}
+		}
+		return true
+	}
+	for t := int64(1); t <= int64(terms); t++ {
+		heads := c.Fence(t, c.Nodes)
+		if len(heads) != 3 {
+			r.Inconclusive("fence failed")
+			return r.Done()
+		}
+		best := rc.PickLeader(heads)
+		leader = best[rng.IntN(len(best))]
+		if err := c.Install(t, leader, 3, heads); err != nil {
+			r.Inconclusive("install: " + err.Error())
+			return r.Done()
+		}
+		if !write(1 + rng.IntN(5)) {
+			r.Inconclusive("write failed")
+			return r.Done()
+		}
+	}
+	cur := int64(terms)
+	follower := ""
+	for _, n := range c.Nodes {
+		if n.Name != leader {
+			follower = n.Name
+		}
+	}
+	probe := func(node, role string) {
+		before, err := c.Node(node).GetStatus()
+		if err != nil {
+			r.Inconclusive("status: " + err.Error())
+			return
+		}
+		reps := 1 + rng.IntN(2)
+		for i := 0; i < reps; i++ {
+			stale := int64(rng.IntN(int(cur)))
+			_, err := c.Node(node).DeleteShard(&proto.DeleteShardRequest{Namespace: rc.Namespace, Shard: 0, Term: stale})
+			if err == nil {
+				r.Violate("C05/stale-delete-shard-accepted/"+role, fmt.Sprintf("%s (%s, term %d) executed DeleteShard of term %d", node, role, cur, stale), nil)
+				return
+			}
+			r.Count("stale_deletes_refused", 1)
+		}
+		if !write(2) {
+			r.Violate("C05/stale-delete-shard-disturbed-the-shard/"+role, fmt.Sprintf("after %s (%s) refused a DeleteShard of an older term, a write through the leader did not succeed", node, role), nil)
+			return
+		}
+		r.Count("writes_after_stale_delete", 1)
+		deadline := time.Now().Add(5 * time.Second)
+		for {
+			after, err := c.Node(node).GetStatus()
+			if err == nil && after.Term == before.Term && (after.Status == before.Status || (before.Status == proto.ServingStatus_FENCED && after.Status == proto.ServingStatus_FOLLOWER)) && after.HeadOffset >= before.HeadOffset+2 {
+				break
+			}
+			if time.Now().After(deadline) {
+				r.Violate("C05/stale-delete-shard-disturbed-the-node/"+role, fmt.Sprintf("%s was %v in term %d with head %d; after refusing a stale DeleteShard and two more writes it reports %v (err %v)", node, before.Status, before.Term, before.HeadOffset, after, err), nil)
+				return
+			}
+			time.Sleep(5 * time.Millisecond)
+		}
+	}
+	order := []string{"follower", "leader"}
+	if rng.IntN(2) == 0 {
+		order = []string{"leader", "follower"}
+	}
+	for _, role := range order {
+		if r.Violations() > 0 {
+			break
+		}
+		if role == "leader" {
+			probe(leader, role)
+		} else {
+			probe(follower, role)
+		}
+	}
+	// a node that refused must still be deletable with the current term
+	if r.Violations() == 0 {
+		if _, err := c.Node(follower).DeleteShard(&proto.DeleteShardRequest{Namespace: rc.Namespace, Shard: 0, Term: cur}); err != nil {
+			r.Violate("C05/delete-shard-after-refusal-failed", err.Error(), nil)
+		}
+		r.Nontrivial()
+	}
+	r.FP(terms, r.Get("stale_deletes_refused"))
 	return r.Done()
 }
